@@ -268,6 +268,13 @@ func init() {
 			}
 			return Scalar{And(Neq(iv.Tid, Int(0)), UF("implements_"+typeKey(ty), SBool, iv.Tid))}
 		},
+		"ufval_ptr": func(e *Env, args []ast.Expr) Value {
+			h := e.ufApp(args, SInt)
+			return Ptr{H: h, Elem: e.ptrElemHint(args)}
+		},
+		"sint32": func(e *Env, args []ast.Expr) Value {
+			return Scalar{wrapInt(e.toTerm(e.eval(args[0])), types.Typ[types.Int32])}
+		},
 		"sint16": func(e *Env, args []ast.Expr) Value {
 			return Scalar{wrapInt(e.toTerm(e.eval(args[0])), types.Typ[types.Int16])}
 		},
@@ -304,7 +311,13 @@ func init() {
 			if ty == nil {
 				fail("spec: some: unknown type %s", exprStr(args[0]))
 			}
-			return e.st.symValue(ty, Var("sk."+strings.ReplaceAll(exprStr(args[0]), " ", ""), SInt))
+			name := "sk." + strings.ReplaceAll(exprStr(args[0]), " ", "")
+			if len(args) > 1 {
+				if nv, ok := e.eval(args[1]).(Scalar); ok && nv.T.IsStr() {
+					name += "." + nv.T.S
+				}
+			}
+			return e.st.symValue(ty, Var(name, SInt))
 		},
 		"errnil":  func(e *Env, args []ast.Expr) Value { t, _ := e.st.isNilTerm(e.eval(args[0])); return Scalar{t} },
 	}
@@ -363,5 +376,22 @@ func (e *Env) flattenArg(v Value) []*Term {
 		}
 	}
 	fail("spec: unsupported uf argument %T", v)
+	return nil
+}
+
+// pointer-valued uninterpreted constants need their pointee type: known names only
+func (e *Env) ptrElemHint(args []ast.Expr) types.Type {
+	nv, ok := e.eval(args[0]).(Scalar)
+	if !ok || !nv.T.IsStr() {
+		return nil
+	}
+	switch nv.T.S {
+	case "codec.manager":
+		if p := e.lookupPkg("codec"); p != nil {
+			if o := p.Scope().Lookup("CodecManager"); o != nil {
+				return o.Type()
+			}
+		}
+	}
 	return nil
 }
